@@ -75,8 +75,10 @@ func checkUvarintLenIdiom(r *core.Report, rule string, pkgs ...string) map[*type
 						return
 					}
 					ast.Inspect(n, func(k ast.Node) bool {
-						if s, ok := k.(*ast.IncDecStmt); ok && s.Tok == token.INC {
-							cnt = core.ObjOf(info, s.X)
+						if st, isStmt := k.(ast.Stmt); isStmt {
+							if place, isInc := addsOne(info, st); isInc {
+								cnt = core.ObjOf(info, place)
+							}
 						}
 						return true
 					})
